@@ -46,6 +46,7 @@ theorem sinv_step {s s' : Shared} {t t' : Thread} (hs : TStep s t s' t') (h : SI
     exact ⟨by simp [Shared.log, seqOk_append, h.ok, evOk, h.closed, hcl],
       by simp [Shared.log, replay_append, applyEv, h.m], by simp [Shared.log, replay_append, applyEv, h.closed]⟩
   | checkOk op rest hc hcode hcl => exact h
+  | load op rest hc hcode => exact h
   | announce op l rest hc hcode hwt => exact ⟨h.ok, h.m, h.closed⟩
   | acquire op l rest hc hcode hwt hfree => exact ⟨h.ok, h.m, h.closed⟩
   | rlock op l rest hc hcode hfree => exact ⟨h.ok, h.m, h.closed⟩
@@ -114,6 +115,9 @@ theorem nest_step {s s' : Shared} {t t' : Thread} (hs : TStep s t s' t') (ht : T
     rw [evsOf_append_same _ _ _ (by rfl), prun_append, h]
     simp [pst, hc, hres, effsOf, pstep]
   | checkOk op rest hc hcode hcl =>
+    refine ⟨rfl, ?_, fun tid _ => rfl⟩
+    rw [h]; simp [pst, hc, hcode, effsOf]
+  | load op rest hc hcode =>
     refine ⟨rfl, ?_, fun tid _ => rfl⟩
     rw [h]; simp [pst, hc, hcode, effsOf]
   | announce op l rest hc hcode hwt =>
